@@ -47,68 +47,6 @@ def load_corpus():
     return out
 
 
-def replay_obj(h, k, impl, model):
-    key = "H%d.%d" % (h["id"], k)
-    return {"history": sg.hist_to_json(h), "line": h["line"], "step": k,
-            "sql_so_far": [s.get("sql", s["k"]) for s in h["steps"][:k + 1]],
-            "impl": impl.get(key), "model": model.get(key)}
-
-
-def evaluate(ck, hists, impl, model, totals, samples):
-    for h in hists:
-        cnt, ev, stats, tags = sg.compare_hist(h, impl, model)
-        for a in cnt:
-            totals[a] = totals.get(a, 0) + cnt[a]
-        nontriv = stats["max_rowsets"] >= 2 and stats["deleted_rows"] >= 1
-        totals["nontrivial"] = totals.get("nontrivial", 0) + (1 if nontriv else 0)
-        for a in ("merges", "reopens"):
-            totals[a] = totals.get(a, 0) + stats[a]
-        totals["max_rowsets"] = max(totals.get("max_rowsets", 0), stats["max_rowsets"])
-        if nontriv:
-            totals.setdefault("distinct", set()).add(h["line"])
-        if len(samples) < 3 and nontriv:
-            samples.append([s.get("sql", s["k"])[:160] for s in h["steps"]])
-        seen_sig = None
-        for e in ev:
-            if e[0] == "prop":
-                _, k, what, got, exp, tg = e
-                sig = sg.sig_of_tags(tg)
-                step_kind = h["steps"][k]["k"]
-                m = model.get("H%d.%d" % (h["id"], k), {})
-                predicted = ("tabs" in m and sg.canon_tabs(m["tabs"]) == got) or (m.get("out") == got)
-                if sig and predicted:
-                    ck.report(sig, "%s: implementation has %s, a plain multiset of the acknowledged statements has %s "
-                              "(model reproduces the implementation; reason %s)" % (what, got[:160], exp[:160], ",".join(tg)),
-                              replay=replay_obj(h, k, impl, model))
-                    seen_sig = sig
-                else:
-                    ck.report("impl:%s:%s" % (step_kind, what.split(" ")[0]),
-                              "%s: implementation %s, expected %s" % (what, got[:200], exp[:200]),
-                              replay=replay_obj(h, k, impl, model))
-            elif e[0] == "corr":
-                _, k, field, a, b = e
-                # a disagreement that is also a property failure is reported by the "prop" event
-                if any(x[0] == "prop" and x[1] == k for x in ev) and sg.sig_of_tags(tags) is None:
-                    continue
-                found = any(x[0] == "prop" for x in ev)
-                ck.report("corr:%s:%s" % (h["steps"][k]["k"], field),
-                          "model and implementation disagree on `%s` after step %d (%s): impl=%s model=%s" % (
-                              field, k, h["steps"][k].get("sql", h["steps"][k]["k"])[:100], str(a)[:200], str(b)[:200]),
-                          replay=replay_obj(h, k, impl, model), found_input=found)
-            elif e[0] == "spec":
-                _, k, field, a, b = e
-                ck.report("spec:model-vs-oracle", "the Lean specification and the python multiset oracle disagree at step %d: %s vs %s" % (k, a, b),
-                          replay=replay_obj(h, k, impl, model), found_input=False)
-        if h.get("expect_sig") and seen_sig != h["expect_sig"]:
-            ck.report("witness:%s" % h["expect_sig"],
-                      "the recorded defect %s no longer reproduces on the implementation (repaired? then move it to `fixed`)" % h["expect_sig"],
-                      replay={"history": sg.hist_to_json(h)}, found_input=False)
-            # not a property violation by itself: tell the reader, do not fail the check
-            ck.violations = [v for v in ck.violations if v[0] != "witness:%s" % h["expect_sig"]]
-            ck.notes.append("witness for %s did not reproduce" % h["expect_sig"])
-            totals.setdefault("witness_not_reproduced", []).append(h["expect_sig"])
-
-
 def run(ck):
     n = 80 if ck.quick() else 2000
     bad = vlib.step_lean(ck, "RlModel.Thm.C07", THEOREMS, extra_targets=["drv_c07"])
@@ -124,7 +62,7 @@ def run(ck):
     impl, model, ann, errs = sg.run_hists(ck.work, vlib.harness_bin("c07"), vlib.lean_exe("drv_c07"), fixed + hists, "c07", shards=12)
     if errs:
         ck.report("harness:crash", "the harness process failed: %s" % errs[0][1][-400:], replay={"stderr": errs[0][1]}, found_input=False)
-    evaluate(ck, fixed + hists, impl, model, totals, samples)
+    sg.evaluate(ck, fixed + hists, impl, model, totals, samples)
     # an undischarged theorem: the search for a failing input is the oracle run above
     found_any = any(v[3] for v in ck.violations)
     for name, st in bad.items():
